@@ -6,12 +6,14 @@ import (
 	"encoding/hex"
 	"encoding/json"
 	"fmt"
+	"github.com/akrennmair/updog/zzverif/ptk"
 	"github.com/akrennmair/updog/zzverif/vsched"
 	"os"
 	"os/exec"
 	"path/filepath"
 	"strconv"
 	"strings"
+	"syscall"
 
 	"github.com/akrennmair/updog"
 	"github.com/akrennmair/updog/zzverif/ix"
@@ -29,11 +31,20 @@ type c16Case struct {
 	Via      string   `json:"via,omitempty"` // flush | create | create-big
 	History  []string `json:"history,omitempty"`
 	Writer   int      `json:"writer,omitempty"` // read: which writer path produced the index
+	Name     string   `json:"name,omitempty"`   // clobber: file name of the output path (default out.updog)
+	Signal   string   `json:"signal,omitempty"` // clobber via create: "int" / "term": the command is interrupted at every point of its run
 }
 
 func (c c16Case) sig() string {
 	if c.Kind == "clobber" {
-		return fmt.Sprintf("clobber existing=%s rows=%d via=%s", c.Existing, c.Rows, c.Via)
+		x := ""
+		if c.Name != "" {
+			x += " output-name=" + c.Name
+		}
+		if c.Signal != "" {
+			x += " interrupted-by=SIG" + strings.ToUpper(c.Signal) + "-at-every-point"
+		}
+		return fmt.Sprintf("clobber existing=%s rows=%d via=%s%s", c.Existing, c.Rows, c.Via, x)
 	}
 	return fmt.Sprintf("read index-written-by=%s history=%s", ix.Writer(c.Writer), strings.Join(c.History, ";"))
 }
@@ -61,6 +72,9 @@ func c16Clobber(ctx *rt.Ctx, c c16Case) string {
 	dir := ctx.TempDir("c16")
 	defer os.RemoveAll(dir)
 	out := filepath.Join(dir, "out.updog")
+	if c.Name != "" {
+		out = filepath.Join(dir, c.Name)
+	}
 	switch c.Existing {
 	case "empty":
 		os.WriteFile(out, nil, 0o644)
@@ -155,6 +169,40 @@ func c16Clobber(ctx *rt.Ctx, c c16Case) string {
 		args := []string{"create", "-o", out}
 		if c.Via == "create-big" {
 			args = append(args, "-b")
+		}
+		if c.Signal != "" {
+			// the command under ptrace, interrupted (SIGINT / SIGTERM) before its k-th read of the input or file-changing
+			// system call, for every k: whatever it does on its way out, the existing file stays as it is
+			opt := ptk.Options{Signal: syscall.SIGINT, CountReads: true}
+			if c.Signal == "term" {
+				opt.Signal = syscall.SIGTERM
+			}
+			env := append(os.Environ(), "TMPDIR="+dir)
+			argv := append(append([]string{bin}, args...), csv)
+			for k := 1; k < 3000; k++ {
+				r, err := ptk.RunOpt(argv, env, []string{dir + "/"}, k, filepath.Join(dir, "stdout"), opt)
+				if err != nil {
+					return "" // tracing is not possible here: this variant is skipped
+				}
+				after := fileState(out)
+				if strings.HasPrefix(c.Existing, "symlink") {
+					after = linkState()
+				}
+				if after != before {
+					call := ""
+					if len(r.Calls) > 0 {
+						call = r.Calls[len(r.Calls)-1]
+					}
+					return fmt.Sprintf("the command was interrupted (SIG%s) before its call #%d (%s): afterwards the existing file (%s) has changed from %s to %s", strings.ToUpper(c.Signal), k, strings.ReplaceAll(call, dir+"/", ""), c.Existing, before, after)
+				}
+				if !r.Killed {
+					if r.ExitCode == 0 {
+						return fmt.Sprintf("writing to an existing file (%s) succeeded", c.Existing)
+					}
+					return ""
+				}
+			}
+			return ""
 		}
 		cmd := exec.Command(bin, append(args, csv)...)
 		cmd.Env = append(os.Environ(), "TMPDIR="+dir)
@@ -455,6 +503,31 @@ func c16Run(ctx *rt.Ctx) []*rt.Violation {
 			}
 		}
 	}
+	// output names that look like temporary files, and the command interrupted at every point of its run
+	for _, via := range []string{"create", "create-big"} {
+		for _, name := range []string{"out.updog.tmp", "out.tmp", "out", ".out.updog.swp"} {
+			for _, ex := range []string{"index", "bytes"} {
+				c := c16Case{Kind: "clobber", Existing: ex, Rows: 3, Via: via, Name: name}
+				ctx.Cov.Add("evaluations", 1)
+				ctx.Cov.Add("distinct_nontrivial", 1)
+				ctx.Cov.Add("clobber_cases", 1)
+				if v := c16Clobber(ctx, c); v != "" {
+					vs = append(vs, rt.NewViolation("C16", "clobber", c.sig(), c, "%s", v))
+				}
+			}
+		}
+		for _, sig := range []string{"int", "term"} {
+			for _, rows := range []int{3, 1500} {
+				c := c16Case{Kind: "clobber", Existing: "index", Rows: rows, Via: via, Signal: sig}
+				ctx.Cov.Add("evaluations", 1)
+				ctx.Cov.Add("distinct_nontrivial", 1)
+				ctx.Cov.Add("clobber_cases", 1)
+				if v := c16Clobber(ctx, c); v != "" {
+					vs = append(vs, rt.NewViolation("C16", "clobber", c.sig(), c, "%s", v))
+				}
+			}
+		}
+	}
 	ctx.Cov.Sample(2, map[string]any{"clobber": c16Case{Kind: "clobber", Existing: "index-readonly", Rows: 1500, Via: "create-big"}.sig()})
 	depth := 5
 	if ctx.Thorough() {
@@ -486,7 +559,7 @@ func c16Run(ctx *rt.Ctx) []*rt.Violation {
 	vs = append(vs, rt.Collect(ctx, outs, nil)...)
 	vs = append(vs, rt.Collect(ctx, <-done, nil)...)
 	ctx.Cov.Note("concurrent_flush", "two IndexWriters with different rows (0 and 3 rows each) Flush to one fresh path on two goroutines under the controlled scheduler, scheduling points at every file-system operation of updog (package os re-exported with points), at bbolt's locks and updog's locks; every schedule within the preemption bound: exactly one call succeeds, the other fails, and the file is the winner's complete index")
-	ctx.Cov.Note("rule", fmt.Sprintf("clobber: 9 pre-existing contents (empty, valid index, a valid index with the row count and schema of the new one but other bitmaps, arbitrary bytes, read-only index, bbolt database without buckets, bbolt database with a foreign bucket, dangling symlink into an existing directory, symlink to an index) x 3 writer sizes x {IndexWriter.Flush, updog create, updog create -b}: must fail and leave SHA-256/size/mode (and link target) unchanged; 'appears': for every write k of Flush another actor exclusively creates the output path at that moment - if it succeeds Flush must fail and leave that file alone; read: every enabled history up to depth %d over {4 open variants, 4 queries, GetSchema, Close} on copies of valid 1200-row indexes written by each of the three writer paths: SHA-256/size/mode compared after every step; non-trivial = clobber cases and read histories of length >= 3", depth))
+	ctx.Cov.Note("rule", fmt.Sprintf("clobber: 9 pre-existing contents (empty, valid index, a valid index with the row count and schema of the new one but other bitmaps, arbitrary bytes, read-only index, bbolt database without buckets, bbolt database with a foreign bucket, dangling symlink into an existing directory, symlink to an index) x 3 writer sizes x {IndexWriter.Flush, updog create, updog create -b}: must fail and leave SHA-256/size/mode (and link target) unchanged, also for output names that look like temporary files (out.updog.tmp, out.tmp, ...) and when `updog create` is interrupted by SIGINT / SIGTERM before every read of its input and every file-changing system call; 'appears': for every write k of Flush another actor exclusively creates the output path at that moment - if it succeeds Flush must fail and leave that file alone; read: every enabled history up to depth %d over {4 open variants, 4 queries, GetSchema, Close} on copies of valid 1200-row indexes written by each of the three writer paths: SHA-256/size/mode compared after every step; non-trivial = clobber cases and read histories of length >= 3", depth))
 	return vs
 }
 
